@@ -20,17 +20,20 @@ PROP = {
                'history search length 4 / 6, straight-line 8 / 10, plus every one- and two-byte text and fcppt::io::get/peek on all 256 byte '
                'values (pairs) and all wchar_t values below 0x20000; parse stream built after 1 or 2 istream::get() calls: history search '
                'length 4 / 5, straight-line 8 / 10; faults: texts up to length 5 / 7, one '
-               'fault per run; error texts: all texts up to length 4 / 6, plus the offending character at every line L and column C with L + C <= 13 (every '
+               'fault per run; stream states and retries (both tiers): 10 texts up to length 2, std stream handed over in {good, eof, fail, bad, '
+               'fail|bad, eof|fail} x exceptions() in {none, bad, fail|bad} x 20 entry points, and first operation (read to the end / device '
+               'throws at read 1..n+1, through get_char or phrase_parse(*basic_char)) x optional set_position(start) x second operation of '
+               'each of the 20 kinds; error texts: all texts up to length 4 / 6, plus the offending character at every line L and column C with L + C <= 13 (every '
                'location reachable within 12 characters; text = L-1 newlines, C-1 times a, the offending letter), plus reported line x column over '
                'the lattice {1,2,9,10,11,19,20,99,100,101,109,110,111,999,1000,1001,1099,1100,9999,10000,65535,65536}^2; straight_long: '
                'texts (a^k newline)^(l-1) a^(c-1) for l, c over the same lattice (k = 0; k = 1 against small c and on the diagonal) with a '
                'linear read / rewind-to-boundaries / re-read schedule; no random longer texts (nothing is sampled)',
  'binaries': [{'name': 'C12',
-               'sources': ['harness/C12.cpp', 'harness/C12_straight.cpp', 'harness/C12_fault.cpp', 'harness/C12_errtext.cpp'],
+               'sources': ['harness/C12.cpp', 'harness/C12_straight.cpp', 'harness/C12_fault.cpp', 'harness/C12_errtext.cpp', 'harness/C12_state.cpp'],
                'libs': ['core'],
                'flavour': 'asan'}],
  'compile_probes': [{'name': 'parse_stream<deduced>', 'source': 'harness/C12_probe_parse_stream.cpp', 'flags': []}],
- 'deadline': {'quick': 300, 'thorough': 1500},
+ 'deadline': {'quick': 300, 'thorough': 2400},
  'rule': 'hist_*: BFS over histories CHOOSE_TEXT(t); {get_char | get_char_error | s=get_position | set_position(s)}*; a transition is '
          'non-trivial when it changes the canonical state (text, index, read-at-end flag, sorted saved indices, std stream state); states '
          'are distinct canonical keys. straight<..>: one case per text (read all while saving every position, read past the end, rewind '
@@ -40,7 +43,10 @@ PROP = {
          'text). io::get/peek: one case per stream content (1 or 2 characters), peek and get before every character and twice at the '
          'end; non-trivial when a value is above 127. fault_direct/fault_phrase: one case per (text, fault mode in {eof once, eof '
          'forever, read throws, seek returns -1, seek throws}, k) for every k the script reaches, plus the fault-free run; non-trivial '
-         'when a fault is injected. errtext: one case per (text, offset, literal c or non-empty subset S of the alphabet, entry point in '
+         'when a fault is injected. state_initial / state_retry: one case per (text, characters read before, state, mask, entry point) resp. (text, device, first '
+         'operation, set_position in between or not, mask, second entry point); the case family carries the exceptions() mask and the '
+         'entry point, so a process abort is reported as crash:state_*[exceptions=..]:<entry point><Ch>:<kind>; non-trivial when the '
+         'std stream is not good() at the call (all retry cases). errtext: one case per (text, offset, literal c or non-empty subset S of the alphabet, entry point in '
          '{parser.parse, parse(), skipper::run, phrase_parse(char_, skipper)}); non-trivial when the character at the offset does not '
          'match, i.e. an "Expected ..., got ..." text is produced. errgrid: same case shape as errtext for the texts newline^(L-1) a^(C-1) X, '
          'X each letter, every literal/set not containing X, every entry point (always non-trivial). errloc(l, c, fill): one case per '
@@ -62,6 +68,11 @@ PROP = {
                  'error texts: "Line l:c: Expected " prefix with the location right after the offending character and ", got <char>" suffix are '
                  'compared exactly; the middle must be the character for literal and must name every element for char_set (unordered set); '
                  'end of input gives the documented text "EOF"',
+                 'stream states / retries: on a std stream that is not good() an entry point must either behave exactly as on a healthy '
+                 'stream or report nothing / a failure without consuming; fcppt::parse::detail::exception may reach the caller only from the '
+                 'stream-level entry points (member/free get_char, get_char_error, parser.parse(), skipper::run) -- parse, phrase_parse, '
+                 'parse_stream and phrase_parse_stream must return a failure; std::ios_base::failure may escape only if the caller set an '
+                 'exceptions() mask, the exception of the streambuf only if that mask contains badbit; the process must not terminate',
                  'located messages: the numbers are read back from the text (plain decimal) and compared as integers with the model, and '
                  'the text is compared with the std::to_string rendering; only literal, char_set, skipper::literal and skipper::char_set print '
                  'a location (they are the only users of detail::expected); beyond text length 6 the error texts are enumerated over the '
